@@ -376,6 +376,30 @@ def gen_tree(rnd, idx):
     return t
 
 
+def gen_chain(rnd, idx):
+    """a long acyclic chain of includes (file k includes file k+1, across a few directories): splicing has no depth of its own"""
+    t = Tree()
+    n = rnd.choice([12, 40, 63, 64, 65, 66, 100, 150])
+    dirs = ['proj', 'proj/a', 'proj/a/b', 'proj/lib']
+    t.dirs.update(dirs + ['decoy', 'decoy/deep', 'elsewhere'])
+    t.compress = rnd.random() < 0.5
+    t.main = 'proj/main.asm'
+    paths = [t.main] + ['%s/c%d.asm' % (dirs[k % len(dirs)], k) for k in range(1, n + 1)]
+    for k, pth in enumerate(paths):
+        lines = ['CH%d:' % k if k % 7 == 0 else '    addi x%d, x%d, %d' % (5 + k % 20, 5 + k % 20, k % 100 + 1)]
+        if k < n:
+            rel = os.path.relpath(paths[k + 1], os.path.dirname(pth))
+            t.targets['%s:%d' % (pth, len(lines))] = paths[k + 1]
+            lines.append('include ' + rel)
+            lines.append('    dw %d' % k)
+        else:
+            lines.append('    j CH0')
+        t.files[pth] = lines
+    t.meta = dict(depth=n, positions=['middle'], forms=['include'], resolution=['chain-%d' % n], n_files=len(t.files), n_bins=0, fail='ok',
+                  inc_spell=[])
+    return t
+
+
 def reachable_files(t):
     """text files in program order of first inclusion, starting at main (follows the intended targets)"""
     seen, order = set(), []
@@ -744,7 +768,7 @@ def one_case(args):
     seedv, idx, tier = args
     os.environ['VERIF_SEED'] = str(seedv)
     rnd = common.rng('c14:%d' % idx)
-    t = gen_tree(rnd, idx)
+    t = gen_chain(rnd, idx) if idx % 60 == 17 else gen_tree(rnd, idx)
     r = check_tree(t, with_cli=(idx % 4 == 1))
     r['idx'] = idx
     r['tree'] = t.to_json()
